@@ -256,9 +256,19 @@ pub fn run_c12(ctx: &mut Ctx) {
                 1 => ("until", ctx.rng.gen_range(2..=hz)),
                 _ => ("njobs", ctx.rng.gen_range(3..=steps.last().unwrap().1 + 2)),
             };
-            // the table of such a prefix is the tight curve of an event process only below its first multi-job step
-            // (from there on it is not sub-additive); domination beyond that point is the listed finding F11
-            let tight_upto = steps.windows(2).find(|w| w[1].1 >= w[0].1 + 2).map(|w| w[1].0 - 1).unwrap_or(hz);
+            // the table of such a prefix is the tight curve of an event process only as long as its delta-min vector is
+            // super-additive (a multi-job step, or gaps that shrink too fast, end that); domination beyond is finding F11
+            // delta-min vector of the prefix (entry k-2 = smallest span of k jobs); the table is realisable up to the
+            // last job count whose vector is still super-additive
+            let njobs = steps.last().unwrap().1;
+            let dm: Vec<u64> = (2..=njobs).map(|k| steps.iter().find(|s| s.1 >= k).unwrap().0 - 1).collect();
+            let mut tight_upto = hz;
+            for m in 1..=dm.len() {
+                if !gen::is_superadditive(&dm[..m]) {
+                    tight_upto = dm[m - 1]; // the step that brings job m+1 lies at dm[m-1] + 1
+                    break;
+                }
+            }
             ctx.call("derive", json!({"src": acp, "how": how, "arg": arg, "H": hh, "exact": false, "exact_upto": tight_upto.min(hh),
                                       "tags": ["acp", "coarse_source", "loose_source"]}), derive_call);
             ctx.call("dmin_iter", json!({"m": acp, "H": hh, "N": 40, "tags": ["acp", "coarse_source"]}), dmin_iter_call);
